@@ -110,3 +110,43 @@ Proof.
   rewrite <- skipn_add. f_equal.
   rewrite skipn_app, skipn_all2 by lia. rewrite Lb, Nat.sub_diag. reflexivity.
 Qed.
+
+Lemma firstn_pad_exact n (b : bytes) : length b = n -> firstn n (b ++ zeros n) = b.
+Proof. intros H. rewrite firstn_app, H, Nat.sub_diag, firstn_O, app_nil_r. rewrite <- H. apply firstn_all. Qed.
+
+(* SigDecode inverts SigEncode on well-formed (c~, z, h): c~ of lambda/4
+   bytes, z with gamma1 - z_i in [0, 2^(1+log2 gamma1)), h a 0/1 vector of
+   weight <= omega *)
+Theorem sigDecode_sigEncode P c z h :
+  p_omega P <= 255 -> (0 <= gamma1 P < q)%Z ->
+  length c = ctLen P -> polys (p_l P) z ->
+  Forall (Forall (fun x => 0 <= x < q /\ (gamma1 P - x) mod q < 2 ^ Z.of_nat (zBits P))%Z) z ->
+  length h = p_k P -> Forall (fun p => binary p /\ length p = degree) h -> weight h <= p_omega P ->
+  sigDecode P (sigEncode P c z h) = Some (c, z, h).
+Proof.
+  intros Ho Hg Lc [Lz Pz] Rz Lh Bh Wh. unfold sigDecode.
+  rewrite sigEncode_length by (auto; split; auto). rewrite Nat.eqb_refl. cbn [negb].
+  unfold sigEncode. rewrite firstn_pad_exact by exact Lc.
+  assert (Lb : Forall (fun b => length b = 32 * zBits P) (map (bitPack (gamma1 P) (zBits P)) z)).
+  { apply Forall_map. eapply Forall_impl; [|exact Pz]. intros p Lp. apply bitPack_length. exact Lp. }
+  assert (Lcat : length (concat (map (bitPack (gamma1 P) (zBits P)) z)) = p_l P * 32 * zBits P).
+  { rewrite (concat_map_length _ (32 * zBits P)).
+    - rewrite Lz. lia.
+    - eapply Forall_impl; [|exact Pz]. intros p Lp. apply bitPack_length. exact Lp. }
+  set (ZZ := concat (map (bitPack (gamma1 P) (zBits P)) z)) in *.
+  set (HH := hintBitPack (p_omega P) h).
+  assert (F1 : firstn (ctLen P) (c ++ ZZ ++ HH) = c).
+  { rewrite <- Lc, firstn_app, Nat.sub_diag, firstn_O, firstn_all, app_nil_r. reflexivity. }
+  assert (S1 : skipn (ctLen P) (c ++ ZZ ++ HH) = ZZ ++ HH).
+  { rewrite <- Lc, skipn_app, Nat.sub_diag, skipn_all. reflexivity. }
+  assert (S2 : skipn (ctLen P + p_l P * 32 * zBits P) (c ++ ZZ ++ HH) = HH).
+  { rewrite Nat.add_comm, <- skipn_add, S1. rewrite <- Lcat, skipn_app, Nat.sub_diag, skipn_all. reflexivity. }
+  rewrite F1, S1, S2. unfold ZZ.
+  rewrite <- Lz.
+  pose proof (pieces_concat _ _ HH Lb) as PC. rewrite map_length in PC. rewrite PC. clear PC.
+  replace (map (bitUnpack (gamma1 P) (zBits P)) (map (bitPack (gamma1 P) (zBits P)) z)) with z.
+  2:{ rewrite map_map. rewrite <- (map_id z) at 1. apply map_ext_in. intros p Hp.
+      rewrite Forall_forall in Pz, Rz. symmetry. apply bitUnpack_bitPack; auto. unfold zBits. lia. }
+  unfold HH.
+  rewrite hintBitUnpack_hintBitPack; auto.
+Qed.
